@@ -512,7 +512,15 @@ class Interp:
             if m is None: break
             v = m.eval(e, model_completion=True).as_long(); vals.append(v)
             extra = z3.And(extra, e != v)
-        if len(vals) > limit: raise Inconclusive('symbolic %s has more than %d feasible values' % (what, limit))
+        if len(vals) > limit:
+            # too many values: keep exploring a few of them (a violation found there is still a violation), but the
+            # exploration as a whole is no longer complete and cannot be reported as "held"
+            s.incomplete.append('symbolic %s has more than %d feasible values in %s' % (what, limit, st.frames[-1].fn if st.frames else '?'))
+            lo = s.sol.model(st.pc, z3.ULE(e, z3.BitVecVal(64, e.size())))
+            vals = vals[:8]
+            if lo is not None:
+                v = lo.eval(e, model_completion=True).as_long()
+                if v not in vals: vals.append(v)
         if not vals: raise PathEnd()
         return vals
 
@@ -957,8 +965,8 @@ class Interp:
         t0 = time.time()
         st = s.start_state(entry)
         if prefix: st.forced = list(reversed(prefix))
-        s.pending = [st]; s.paths = 0; s.violations = []; s.pruned = 0; s.nviol = 0
-        s.viol_count = collections.Counter(); s.keep_per_msg = 3
+        s.pending = [st]; s.paths = 0; s.violations = []; s.pruned = 0; s.nviol = 0; s.incomplete = []
+        s.viol_count = collections.Counter(); s.keep_per_msg = 2
         status = 'done'
         while s.pending:
             if time.time() - t0 > timeout: status = 'timeout'; break
@@ -982,10 +990,10 @@ class Interp:
     def report(s, st, info, extra, ptr=None):
         """record a violation together with concrete inputs (a model of the path condition) and the monitor log"""
         s.nviol = getattr(s, 'nviol', 0) + 1
-        key = info['msg']
+        key = re.sub(r'\d+', '#', info['msg'])
         s.viol_count[key] += 1
         if s.viol_count[key] > s.keep_per_msg: return
-        info = dict(info); info['where'] = [f.fn for f in st.frames[-8:]]
+        info = dict(info); info['key'] = key; info['where'] = [f.fn for f in st.frames[-8:]]
         info['inputs'] = s.model_inputs(st, extra)
         info['events'] = s.eval_events(st) if info['inputs'] is not None else None
         if ptr is not None and info['inputs'] is not None and s.concrete_inputs is None:
